@@ -274,10 +274,8 @@ def run(ctx):
             isinstance(x.ast, ast.Return)]
     for x in rets:
         if not cfg.dominates(cps[0], x) if cps else True:
-            g = [norm(t) for (t, pol, _g) in cfg.guards(x)
-                 if isinstance(t, ast.expr) and pol]
-            ok = ok and any('not cfg.CONF.context_versioning.enabled' in t
-                            for t in g)
+            ok = ok and U.guarded(
+                cfg, x, 'cfg.CONF.context_versioning.enabled', False)
     try:
         enabled = config_default(prog, 'context_versioning', 'enabled')
         strategy = config_default(prog, 'engine', 'merge_strategy')
@@ -368,10 +366,7 @@ def run(ctx):
     okd = False
     for n in over:
         sn = cfg.stmt_node(n)
-        for (t, pol, _g) in cfg.guards(sn):
-            if isinstance(t, ast.Compare) and pol and norm(t) in (
-                    'r_ver > l_ver', 'l_ver < r_ver'):
-                okd = True
+        okd = okd or U.guarded(cfg, sn, 'r_ver > l_ver', True)
     r4.check(okd, ctx.construct(r, extra='merge direction'),
              'an existing left value is overwritten without "right version '
              '> left version"', ctx.loc(r))
